@@ -58,6 +58,17 @@ def validate_norbab(mo, attribute, value):
             raise ValueError("In case of restricted orbitals, norba must be equal to norbb.")
 
 
+def validate_kind(mo, _attribute, value):
+    """Validate that the kind of orbitals is compatible with norba and norbb."""
+    if value == "generalized":
+        if mo.norba is not None or mo.norbb is not None:
+            raise ValueError("Attributes norba and norbb must be None in case of generalized orbitals.")
+    elif mo.norba is None or mo.norbb is None:
+        raise ValueError("Attributes norba and norbb cannot be None in case of (un)restricted orbitals.")
+    elif value == "restricted" and mo.norba != mo.norbb:
+        raise ValueError("In case of restricted orbitals, norba must be equal to norbb.")
+
+
 def validate_occs_aminusb(mo, _attribtue, value):
     """Validate the occs_aminusb attribute."""
     if mo.kind != "restricted" and value is not None:
@@ -93,7 +104,9 @@ class MolecularOrbitals:
     """
 
     kind: str = attrs.field(
-        validator=attrs.validators.in_(["restricted", "unrestricted", "generalized"])
+        validator=attrs.validators.and_(
+            attrs.validators.in_(["restricted", "unrestricted", "generalized"]), validate_kind
+        )
     )
     """Type of molecular orbitals, which can be 'restricted', 'unrestricted', or 'generalized'."""
 
